@@ -91,6 +91,23 @@ def patched(extra=None):
                     raise RuntimeError(f"harness out of date: virocon.{m} has no global '{k}'")
                 saved.append((module, k, getattr(module, k), v))
                 setattr(module, k, v)
+        # whatever other names the current source binds numpy / scipy.stats / math / scipy.ndimage to (an import
+        # added by a change under test) is rebound as well - except in modules that are deliberately left alone
+        import math as _math
+        import numpy as _numpy
+        import scipy.ndimage as _ndimage
+        import scipy.stats as _stats
+        from .npx import NPX, MATHX, NDIX
+        from .stx import STX
+        repl = {id(_numpy): NPX, id(_stats): STX, id(_math): MATHX, id(_ndimage): NDIX}
+        for m, d in b.items():
+            if not d:
+                continue
+            module = mod(m)
+            for k, v in list(vars(module).items()):
+                if id(v) in repl and not isinstance(v, type(NPX)):
+                    saved.append((module, k, v, repl[id(v)]))
+                    setattr(module, k, repl[id(v)])
         yield
     finally:
         _ACTIVE.pop()
